@@ -10,7 +10,7 @@ CLAIMED = {
         text='Structural theorem, exhaustive over all MIR bodies of the crate: every effect site (enumerated by capability: '
              'uses of the injected writer, clock, random source, thread::sleep, regex compilation) is dominated by '
              'check_permission(&P)? for the permission the book assigns to it, in its own body or at every call / closure-creation '
-             'site up the call graph; the permission constants carry the documented defaults and the lookup falls back to them; allow / forbid overwrite the entry of the permission on every path with the value their name says, so the host\'s last word is what the lookup sees. '
+             'site up the call graph (a writing helper shared by builtins with different permissions is judged once per calling builtin); the permission constants carry the documented defaults and the lookup falls back to them; allow / forbid overwrite the entry of the permission on every path with the value their name says, so the host\'s last word is what the lookup sees. '
              'Obligations = effect sites + constant/shape obligations; all must be discharged.',
         note='Trusted: rustc MIR + trait resolution; effect primitives named in rules/c11.py (io::Write on W, TimeProvider::unix_now, '
              'get_rng, thread::sleep, regex/regex_automata constructors); host code outside the crate; unwinding paths ignored.',
